@@ -267,6 +267,7 @@ def run(rep, progs, tier):
     rep.rule("C08.raii", "no mem::forget / ManuallyDrop / Box::leak / Rc / Arc of loop-owned resources")
     rep.rule("C08.no-panic", "no unaudited panic site in loop functions and Client send paths; channel failures -> ConnectionClosed")
     rep.trusted = ["rustc MIR construction", "mpdfacts exporter", "tokio drop semantics of oneshot/mpsc", "audited panic reasons (text)"]
+    rep.rule("C08.eof-classified", "imported from C10: a 0-byte read yields Ok(None) only with no frame in progress and no unconsumed bytes, else UnexpectedEof")
     rep.rule("C08.malformed", "imported from C09 (owner of the protocol layer's error classification): a parse error that is not 'incomplete' ends "
              "receive() with InvalidMessage and is never retried — otherwise a malformed reply on a live connection is waited on for ever and no "
              "request resolves")
@@ -276,6 +277,15 @@ def run(rep, progs, tier):
         from .C09 import invalid_rule
         with rep.importing("C09.invalid", "C08.malformed"):
             invalid_rule(rep, prog, cfg)
+        # "end of stream inside a response" is a failure, not a clean close: the classification rule of C10 on the async flavour
+        # the client uses (and the blocking sibling)
+        from . import C10
+        C10.READS.bind(prog)
+        with rep.importing("C10.", "C08.eof-classified."):
+            C10.receive_rule(rep, prog, cfg, "mpd_protocol::connection::Connection::receive", "blocking")
+            if cfg != "K3":
+                C10.receive_rule(rep, prog, cfg, "mpd_protocol::connection::AsyncConnection::receive", "async")
+            C10.in_progress_def(rep, prog, cfg)
 
 
 def one(rep, prog, cfg):
